@@ -1,6 +1,7 @@
 import NomtModel.Driver.Parse
 import NomtModel.Core.PathUpdateExec
 import NomtModel.Core.Complete
+import NomtModel.Driver.MultiMode
 /-!
 `core` sub-protocol: path proofs (verify / confirm / verify_update), `build_trie`, reference roots and
 reference proofs.  One output line per input line.
@@ -13,6 +14,7 @@ abbrev HB := blakeHasher
 structure CoreState where
   regs : List (Nat × Verified ByteArray ByteArray) := []
   kv : List (Key × ByteArray) := []        -- current reference set (strictly sorted)
+  multi : MultiState := []                 -- verified multi-proofs (lines of `Driver/MultiMode.lean`)
 
 def CoreState.getReg (s : CoreState) (r : Nat) : Option (Verified ByteArray ByteArray) :=
   (s.regs.find? (·.1 == r)).map (·.2)
@@ -93,6 +95,10 @@ def coreStep (s : CoreState) (line : String) : CoreState × String :=
     match keyOfHex k with
     | some k => (s, showProof (proveSpec HB 256 s.kv k))
     | none => (s, "bad-op")
-  | _ => (s, "bad-op")
+  -- multi-proof lines (mfrom / mverify / mfind / mcvalue / mcnon / mcvalue_idx / mcnon_idx / mupdate)
+  | fs =>
+    match multiStep s.multi fs with
+    | some (m, out) => ({ s with multi := m }, out)
+    | none => (s, "bad-op")
 
 end Nomt.Driver
